@@ -20,6 +20,13 @@ Every termination is crossed with record-time filter option sets:
         below its depth, -F subtrees, -t 5s, -Z, --no-libcall, -N on the trigger function; monitor: each <tid>.dat is a
         whole-record prefix of what `spec_stream` (uftrace-record.md FILTERS) selects from the thread's own log, the
         terminating thread's file includes the ENTRY of its recordable open calls.
+    fork / exec e2e (EXEC_SCEN): exec from the initial task / a forked child / a thread / a grandchild, _exit / SIGKILL /
+        abort in a forked child; a parent that execs WHILE its forked child is still recording (pipe handshake, the new
+        image waits for its TASK line in task.txt and then releases the child, which makes N calls - N small and N
+        filling several 4k buffers - and ends normally / by _exit / by SIGSEGV): what the child records must not depend
+        on its parent's exec; tracing switched off by something that does not flush (--signal SIGUSR1@trace_off raised
+        by the thread itself, or another thread's -T f@trace_off) while calls are open, then SIGSEGV / abort before
+        another function is entered: the crashing thread's open calls are in its file.
     probe: a fork that is announced (FORK_START) but never completes (clone fails / the process is killed at clone):
         `uftrace record` must terminate (finding F-C04-FORK-NOEND)."""
 import glob
@@ -697,7 +704,9 @@ struct shared { volatile uint32_t nslots, go, pad[2]; struct slot slots[NSLOT]; 
 static struct shared *sh;
 static __thread struct slot *me;
 static char *self_exe, *gt_path;
-static int npost, post_kill;
+static int npost, post_kill, go_fd = -1;
+static char *data_dir = "";
+static volatile int off_a, off_b;
 static NOINST void new_slot(int role)
 {
 	uint32_t i = __sync_fetch_and_add(&sh->nslots, 1);
@@ -715,13 +724,67 @@ static inline __attribute__((always_inline)) void ev(int code)
 }
 static NOINST void do_exec(void)
 {
-	char a[16], b[16];
+	char a[16], b[16], c[16];
 	snprintf(a, sizeof(a), "%d", npost);
 	snprintf(b, sizeof(b), "%d", post_kill);
-	execl(self_exe, self_exe, gt_path, "post", "0", a, b, (char *)0);
+	snprintf(c, sizeof(c), "%d", go_fd);
+	execl(self_exe, self_exe, gt_path, "post", "0", a, b, data_dir, c, (char *)0);
 	_exit(127);
 }
+/* the image after exec: wait (at most 8 s) until the recorder has handled this image's TASK_START, i.e. until
+   task.txt has a second TASK line of this tid (the line is appended after the old image's buffer was written) */
+static NOINST void wait_for_recorder(void)
+{
+	char path[512], pat[64], *buf = malloc(1 << 16);
+	int tid = syscall(SYS_gettid);
+	snprintf(path, sizeof(path), "%s/task.txt", data_dir);
+	snprintf(pat, sizeof(pat), " tid=%d pid=", tid);
+	for (int i = 0; i < 800; i++) {
+		int fd = open(path, O_RDONLY), cnt = 0;
+		if (fd >= 0) {
+			ssize_t n = read(fd, buf, (1 << 16) - 1);
+			close(fd);
+			if (n > 0) {
+				buf[n] = 0;
+				for (char *q = buf; (q = strstr(q, pat)); q++) {
+					char *ls = q;
+					while (ls > buf && ls[-1] != '\n') ls--;
+					if (!strncmp(ls, "TASK ", 5)) cnt++;
+				}
+			}
+		}
+		if (cnt >= 2) break;
+		usleep(10000);
+	}
+	usleep(30000);
+	free(buf);
+}
 %(funcs)s
+/* scenarios 9-11: a forked child that is still running while its parent execs */
+static NOINST void child_under_exec(int scen, int n, int *ready, int *go)
+{
+	char c = 'x';
+	new_slot(1);
+	f8(2);                       /* the child's buffer exists and holds records before the parent execs */
+	close(ready[0]);
+	close(go[1]);
+	if (write(ready[1], &c, 1) != 1) _exit(3);
+	if (read(go[0], &c, 1) != 1) _exit(4);    /* released by the parent's new image */
+	f8(n);
+	if (scen == 9) { me->done = 1; exit(0); }
+	f12(scen == 10 ? 5 : 9);     /* _exit / SIGSEGV */
+	_exit(5);
+}
+/* scenarios 12-15: tracing is switched off by something that does not flush, then the thread crashes */
+static NOINST void *thread_off(void *arg)
+{
+	new_slot(2);
+	while (!off_a) ;
+	f18(0);                      /* -T f18@trace_off */
+	off_b = 1;
+	for (;;) ;
+	return 0;
+}
 static NOINST void *thread_exec(void *arg)
 {
 	new_slot(2);
@@ -742,6 +805,8 @@ int main(int argc, char **argv)
 {
 	int fd, scen, npre;
 	if (argc < 6) return 98;
+	if (argc > 6) data_dir = argv[6];
+	if (argc > 7) go_fd = atoi(argv[7]);
 	self_exe = argv[0];
 	gt_path = argv[1];
 	npre = atoi(argv[3]);
@@ -752,7 +817,14 @@ int main(int argc, char **argv)
 	sh = mmap(0, sizeof(struct shared), PROT_READ | PROT_WRITE, MAP_SHARED, fd, 0);
 	if (!strcmp(argv[2], "post")) {
 		new_slot(3);
+		if (go_fd >= 0) {
+			char c = 'x';
+			f26(0);
+			wait_for_recorder();
+			if (write(go_fd, &c, 1) != 1) return 97;
+		}
 		f24(npost);
+		if (go_fd >= 0) wait(0);
 		me->done = 1;
 		return 0;
 	}
@@ -801,6 +873,34 @@ int main(int argc, char **argv)
 		me->done = 1;
 		break;
 	}
+	case 9: case 10: case 11: { /* the parent execs while a forked child is still running */
+		int ready[2], go[2];
+		char c;
+		pid_t pid;
+		f0(2);
+		if (pipe(ready) < 0 || pipe(go) < 0) return 96;
+		pid = fork();
+		if (pid == 0)
+			child_under_exec(scen, npre, ready, go);
+		close(ready[1]);
+		close(go[0]);
+		if (read(ready[0], &c, 1) != 1) return 95;
+		close(ready[0]);
+		go_fd = go[1];
+		f3(0);
+		break;
+	}
+	case 12: case 13: /* --signal SIGUSR1@trace_off, then SIGSEGV / abort with open calls */
+		f0(npre);
+		f5(scen == 12 ? 0 : 1);
+		break;
+	case 14: case 15: { /* another thread's trace_off trigger, then SIGSEGV / abort with open calls */
+		pthread_t t;
+		pthread_create(&t, 0, thread_off, 0);
+		f0(npre);
+		f5(scen == 14 ? 2 : 3);
+		break;
+	}
 	case 8: { /* grandchild execs */
 		pid_t pid;
 		f0(2);
@@ -832,7 +932,24 @@ int main(int argc, char **argv)
 
 EXEC_SCEN = {1: "exec from the initial task", 2: "fork, exec in the child", 3: "exec from a non-initial thread",
              4: "fork, exec from a thread of the child", 5: "fork, _exit in the child", 6: "fork, SIGKILL in the child",
-             7: "fork, abort in the child", 8: "exec in a grandchild"}
+             7: "fork, abort in the child", 8: "exec in a grandchild",
+             9: "the parent execs while its forked child is still recording; the child then ends normally",
+             10: "the parent execs while its forked child is still recording; the child then calls _exit",
+             11: "the parent execs while its forked child is still recording; the child then crashes (SIGSEGV)",
+             12: "tracing switched off by a signal trigger (--signal SIGUSR1@trace_off), then SIGSEGV with open calls",
+             13: "tracing switched off by a signal trigger (--signal SIGUSR1@trace_off), then abort with open calls",
+             14: "tracing switched off by another thread's trace_off trigger, then SIGSEGV with open calls",
+             15: "tracing switched off by another thread's trace_off trigger, then abort with open calls"}
+EXEC_OLD_SCEN = tuple(range(1, 9))
+
+
+def exec_opts(scen):
+    """extra `uftrace record` options of a scenario"""
+    if scen in (12, 13):
+        return ["--signal", "SIGUSR1@trace_off"]
+    if scen in (14, 15):
+        return ["-T", "f18@trace_off"]
+    return []
 
 
 def gen_exec_program():
@@ -852,7 +969,13 @@ def gen_exec_program():
             body += "NI void f%d(int n) { ev(%d); for (int i = 0; i < n; i++) f%d(i); ev(%d); }\n" % (b, 2 * b, b + 1, 2 * b + 1)
         body += "NI void f%d(int x) { ev(%d); do_exec(); }\n" % (b + 3, 2 * (b + 3))
         body += ("NI void f%d(int how) { ev(%d); if (how == 5) _exit(3); if (how == 6) kill(getpid(), SIGKILL); "
-                 "if (how == 7) abort(); for (;;) pause(); }\n" % (b + 4, 2 * (b + 4)))
+                 "if (how == 7) abort(); if (how == 9) *(volatile int *)0 = 1; for (;;) pause(); }\n" % (b + 4, 2 * (b + 4)))
+        if r == 0:
+            # f5 -> f6: tracing goes off (own signal trigger, or another thread's trace_off trigger) while both are
+            # open and unwritten, then a crash without entering another function
+            body += ("NI void f6(int how) { ev(12); if (how < 2) raise(SIGUSR1); else { off_a = 1; while (!off_b) ; } "
+                     "if (how & 1) abort(); *(volatile int *)0 = 1; }\n")
+            body += "NI void f5(int how) { ev(10); f6(how); ev(11); }\n"
         funcs.append(body)
     return EXEC_SRC.replace("%(funcs)s", "".join(funcs))
 
@@ -888,6 +1011,13 @@ def slot_expectation(scen, slot, post_kill):
         return {0: "full", 1: "prefix", 2: "full"}[r]
     if scen == 8:
         return "full"
+    if scen in (9, 10, 11):
+        # what the child records must not depend on what its parent does
+        return {9: "full", 10: "prefix", 11: "full"}[scen] if r == 1 else "full"
+    if scen in (12, 13, 14, 15):
+        # the crashing thread's open calls were entered while tracing was on; the other thread switched tracing off
+        # in its own trigger function: any whole-record prefix
+        return "full" if r == 0 else "any"
     return "prefix"
 
 
@@ -897,7 +1027,7 @@ def check_exec_run(ctx, exe, datadir, slots, scen, post_kill, err):
     for f in ("info", "task.txt"):
         if not os.path.exists(os.path.join(datadir, f)) or os.path.getsize(os.path.join(datadir, f)) == 0:
             bad.append("data directory incomplete: no %s" % f)
-    if not any(s["role"] == 3 for s in slots) and scen in (1, 2, 3, 4, 8):
+    if not any(s["role"] == 3 for s in slots) and scen in (1, 2, 3, 4, 8, 9, 10, 11):
         bad.append("the new image never ran (exec failed?)")
     by_tid = {}
     for s in slots:
@@ -934,8 +1064,8 @@ def check_exec_run(ctx, exe, datadir, slots, scen, post_kill, err):
                 need = len(ev) if (not ev or ev[-1] % 2 == 0 or s["done"]) else len(ev) - 1
                 if len(got) < need:
                     bad.append("%s: %d of its %d records are in the file at this position%s" % (
-                        what, len(got), need, " (the records made before the exec must come first)" if fam != 3 else ""))
-            else:
+                        what, len(got), need, " (the records made before the exec must come first)" if fam != 3 and len(ss) > 1 else ""))
+            elif kind == "prefix":
                 low = 0
                 for i in range(len(ev) - 1):
                     if ev[i] % 2 == 1:
@@ -1400,7 +1530,7 @@ def _run(ctx):
                 C.violation(ctx, "execbuild", {"kind": "generated-program-does-not-compile", "log": blog[-2000:]}, True)
                 continue
             for rep in range(1 if ctx.tier == "quick" else 4):
-                for scen in EXEC_SCEN:
+                for scen in EXEC_OLD_SCEN:
                     rng = ctx.rng
                     # the image after exec (the parent, for the exit scenarios) fills several 4k buffers (255 records
                     # each), so that its first buffers are written while it is still running
@@ -1408,14 +1538,30 @@ def _run(ctx):
                     npre = rng.choice([3, 8, 20, 40, 150])
                     for pk in ((0, rng.randint(120, npost - 20)) if scen in (1, 2, 3, 4, 8) else (0,)):
                         ejobs.append((fl, scen, npre, npost, pk, len(ejobs)))
+        # (drawn after the jobs above, so that those stay what they were)  a parent that execs while a forked child
+        # is still recording: the child then makes N calls, N small (its first buffer never fills) and N large
+        # (several 4k buffers); tracing switched off by something that does not flush, then a crash
+        # (the switched-off scenarios always run on the -pg build as well: under -finstrument-functions the open calls
+        # are written before the crash by another path)
+        if "pg" not in use and not c03.build_program(os.path.join(d, "x.c"), os.path.join(d, "x_pg"), "pg")[0]:
+            C.violation(ctx, "execbuild", {"kind": "generated-program-does-not-compile", "flavour": "pg"}, True)
+        for fl in use + ([] if "pg" in use else ["pg"]):
+            if not os.path.exists(os.path.join(d, "x_" + fl)):
+                continue
+            for rep in range(1 if ctx.tier == "quick" else 4):
+                for scen in (9, 10, 11) if fl in use else ():
+                    for n in (ctx.rng.choice([1, 3, 8, 20]), ctx.rng.randint(300, 900)):
+                        ejobs.append((fl, scen, n, ctx.rng.randint(300, 900), 0, len(ejobs)))
+                for scen in (12, 13, 14, 15):
+                    ejobs.append((fl, scen, ctx.rng.choice([0, 1, 3, 8, 40, 300]), 0, 0, len(ejobs)))
 
         def one_exec(job):
             fl, scen, npre, npost, pk, jid = job
             dd = os.path.join(d, "data%d" % jid)
             gtf = os.path.join(d, "gt%d.bin" % jid)
             exe2 = os.path.join(d, "x_" + fl)
-            rc, out, err = c03.run_record(ctx, exe2, dd, gtf, ["-b", "4k", "--num-thread", str(1 + jid % 3)],
-                                          prog_args=[scen, npre, npost, pk], timeout=30)
+            rc, out, err = c03.run_record(ctx, exe2, dd, gtf, ["-b", "4k", "--num-thread", str(1 + jid % 3)] + exec_opts(scen),
+                                          prog_args=[scen, npre, npost, pk, dd], timeout=30)
             if rc == -9 or rc == 137:
                 return job, ["uftrace record did not terminate within 30 s (killed by the check)"], 0, 0
             if not os.path.exists(gtf):
@@ -1448,10 +1594,12 @@ def _run(ctx):
                     C.violation(ctx, "exec-%d-%d" % (scen, jid), {
                         "kind": "property-violated-on-implementation", "what": bad[:8], "program": keep,
                         "build": "gcc -O1 -g -no-pie <%s flags> x.c -lpthread" % fl, "scenario": EXEC_SCEN[scen],
-                        "command": "uftrace record --no-event -b 4k --num-thread %d ./x gt.bin %d %d %d %d" % (
-                            1 + jid % 3, scen, npre, npost, pk),
+                        "command": "uftrace record --no-event -d DIR -b 4k --num-thread %d %s./x gt.bin %d %d %d %d DIR" % (
+                            1 + jid % 3, "".join(o + " " for o in exec_opts(scen)), scen, npre, npost, pk),
                         "expected": "<tid>.dat = records of the task's first image, then those of the image after "
-                                    "exec, in order (timestamps never go back)",
+                                    "exec, in order (timestamps never go back); what a forked child records does not "
+                                    "depend on its parent's exec; the crashing thread's open calls (entered while tracing "
+                                    "was on) are in its file also when tracing was switched off before the crash",
                         "theorem": "c04_exec_flush_order, c04_crash_prefix, c04_flush_covers_unended"})
 
     # ---- (d) the fork that never completes ----------------------------------------------------------------------
@@ -1489,7 +1637,11 @@ def _run(ctx):
                 "2-3 threads, -pg / -finstrument-functions / -mfentry, under the real recorder; fork/exec: exec from the "
                 "initial task, a forked child, a non-initial thread, a thread of a forked child, a grandchild, and "
                 "_exit / SIGKILL / abort in a forked child, each with an image after exec (or a parent) that fills "
-                "several 4k buffers, with and without a SIGKILL of the new image. Under record-time filters: %d call histories "
+                "several 4k buffers, with and without a SIGKILL of the new image; a parent that execs while its forked child "
+                "is still recording (pipe handshake; the new image waits for its TASK line, then releases the child, which "
+                "makes N calls, N small / several 4k buffers, and ends normally / by _exit / by SIGSEGV); tracing switched off "
+                "without a flush (--signal SIGUSR1@trace_off raised by the thread itself, or another thread's trace_off "
+                "trigger) while calls are open, then SIGSEGV / abort before another function is entered. Under record-time filters: %d call histories "
                 "through the real hooks (-pg / cygprof / mixed) under option sets chosen relative to the call stack at the "
                 "fatal moment (-N top / ancestor, -D, -F, -t, -Z, -L, depth / notrace / trace_off triggers, random sets), "
                 "ended by a real SIGSEGV / SIGABRT / finish trigger, record stream compared with the hook model + "
